@@ -76,6 +76,7 @@ type e2eResult struct {
 	ExitSent   bool
 	FailLines  map[string]string // role -> type of fail line it wrote ("fail"/"FAIL")
 	Hung       []string          // roles that did not return within the watchdog
+	NoAct      bool              // the server did not return: it is still waiting for the (first) action
 	TriggerSeen  bool
 	TriggerShown string
 	ActAtServer  map[string]any // the action as it reached the server (through the relays)
@@ -290,7 +291,13 @@ func e2eRun(o e2eOpts, w *e2eWire, h *e2eHooks) *e2eResult {
 				continue
 			}
 			if !gotS {
-				res.Hung = append(res.Hung, "server")
+				// a server that has not yet received a complete action has not begun a transfer: it waits
+				// without a time-out by design (the user's Ctrl-C ends it), which is not a hung transfer
+				if e2eServerWaitsForAction() {
+					res.NoAct = true
+				} else {
+					res.Hung = append(res.Hung, "server")
+				}
 			}
 			if !gotC {
 				res.Hung = append(res.Hung, "client")
@@ -298,7 +305,10 @@ func e2eRun(o e2eOpts, w *e2eWire, h *e2eHooks) *e2eResult {
 			gotS, gotC = true, true
 		}
 	}
-	res.ServerOK = serr == nil && !containsString(res.Hung, "server")
+	res.ServerOK = serr == nil && !containsString(res.Hung, "server") && !res.NoAct
+	if res.NoAct {
+		res.ServerErr = "still waiting for the action (no time-out by design)"
+	}
 	if serr != nil {
 		res.ServerErr = e2eFirstLine(serr.Error())
 	}
@@ -386,6 +396,20 @@ func e2eFirstLine(s string) string {
 		s = s[:200]
 	}
 	return s
+}
+
+// e2eServerWaitsForAction: some goroutine is inside (*trzszTransfer).recvAction.
+func e2eServerWaitsForAction() bool {
+	buf := make([]byte, 1<<20)
+	n := runtime.Stack(buf, true)
+	for _, g := range bytes.Split(buf[:n], []byte("\n\n")) {
+		// the server role's own goroutine (not a relay's handshake worker)
+		if bytes.Contains(g, []byte("trzsz.(*trzszTransfer).recvAction")) &&
+			(bytes.Contains(g, []byte("trzsz.recvFiles(")) || bytes.Contains(g, []byte("trzsz.sendFiles("))) {
+			return true
+		}
+	}
+	return false
 }
 
 // e2eLeftGoroutines returns the number of goroutines that still have a frame of the transfer
